@@ -9,7 +9,7 @@ import (
 	"strings"
 
 	"verif/fw"
-	_ "verif/mon"
+	"verif/mon"
 )
 
 func main() {
@@ -64,6 +64,12 @@ func main() {
 			o = &fw.CaseRef{Stratum: (*only)[:i], Index: n}
 		}
 		fw.RunWorker(w, *skip, o, *journal, *out)
+	case "job":
+		fs := flag.NewFlagSet("job", flag.ExitOnError)
+		seed := fs.Int64("seed", 1, "")
+		idx := fs.Int("index", 0, "")
+		fs.Parse(os.Args[2:])
+		mon.RunSoloJob(*seed, *idx)
 	case "replay":
 		if len(os.Args) < 3 {
 			os.Exit(2)
